@@ -17,10 +17,8 @@ import Abmarl.Props.Examples
 #print axioms Abmarl.C01_PredatorPrey
 #print axioms Abmarl.C01_MazeNavigation
 #print axioms Abmarl.C01_TrafficCorridor
-#print axioms Abmarl.C01_MultiMaze_partial
-#print axioms Abmarl.multiMaze_not_lawful
 #print axioms Abmarl.Ex.ex_lawful
 #print axioms Abmarl.Ex.ex_WF
-#print axioms Abmarl.Ex.ex_lawful_erased
 #print axioms Abmarl.examples_hist
 #print axioms Abmarl.examples_get_reward_total
+#print axioms Abmarl.C01_MultiMaze
